@@ -367,6 +367,27 @@ theorem wrap_colour (env : Env) (hcw : ∀ c, env.cw c ≤ c.utf8Size)
     intro q hq; obtain ⟨p, hp, rfl⟩ := List.mem_map.mp hq; exact hcv p hp)]
   exact wrapGeneral_colour env mo hmo o hsp hii hsi paras hne hv ls h
 
+/-- **`wrap` itself, ASCII separator, first-fit or optimal-fit (any penalties with
+    `nline_penalty > 0`) — no external contract at all**: the model runs `smawk`'s own algorithm
+    (`ownMinima`), proved to return column minima of textwrap's cost matrix, so the `smawk`
+    clauses of `wrap_colour` are theorems -/
+-- @audit TW.C13.wrap_colour_own_ascii
+theorem wrap_colour_own_ascii (env : Env) (hcw : ∀ c, env.cw c ≤ c.utf8Size)
+    (o : Opts) (hsp : Builtin o.splitter) (hsep : o.sep = .ascii) (pen0 : Penalties)
+    (halg : o.alg = .firstFit ∨ (o.alg = .optimalFit pen0 ∧ 0 < pen0.nline))
+    (hii : ∀ c ∈ o.initialIndent, c ≠ ESC) (hsi : ∀ c ∈ o.subsequentIndent, c ≠ ESC)
+    (paras : List CPara) (hne : paras ≠ [])
+    (hv : ∀ p ∈ paras, ValidB p.1 p.2 ∧ Attached none p.1 p.2 ∧ LF ∉ colOf p.1 p.2 ∧ LF ∉ visOf p.1 ∧
+      (env.opps (visOf p.1)).Pairwise (· < ·) ∧ HyphenOk env o p.1 p.2)
+    (ls : List Text)
+    (h : wrap env (ownMinima (α := Int) pen0) o (joinWith o.lineEnding.str (paras.map fun p => colOf p.1 p.2)) = some ls) :
+    wrap env (ownMinima (α := Int) pen0) o (joinWith o.lineEnding.str (paras.map fun p => visOf p.1)) =
+      some (ls.map stripAnsi) :=
+  wrap_colour env hcw _ (fun frs lws => ownMinima_rowsShape pen0 frs lws) o hsp hii hsi paras hne hv
+    (fun p _ _ => C05.shortcutContracts_own env o hsp pen0 halg _ (fun hu => by rw [hsep] at hu; cases hu))
+    (fun p _ _ => C05.shortcutContracts_own env o hsp pen0 halg _ (fun hu => by rw [hsep] at hu; cases hu))
+    ls h
+
 /-! the hypotheses are satisfiable: a coloured sentence (a test, labelled as such) -/
 example :
     let bs : List Block := [("\x1b[1;31m".toList, 'a'), ([], 'b'), ("\x1b[0m".toList, ' '), ([], 'c')]
